@@ -71,32 +71,54 @@ structure Plan where
   needsGroupBy : Bool
   deriving Repr, Inhabited
 
-/-- `asOfUntilFor` + `resolutionFor` + the `needsGroupBy` decision of `planLocal` -/
-def planLocal (cfg : TableCfg) (now : Int) (q : Query) : Except QErr Plan := do
+structure Window where
+  asOf : Int
+  hi : Int
+  asOfChanged : Bool
+  untilChanged : Bool
+  qAsOf : Int
+  qUntil : Int
+  deriving Repr, Inhabited
+
+/-- `asOfUntilFor`: the query's bounds (absolute, or relative to the clock) are rounded UP to
+    the table's resolution; a bound that is absent or equal to the table's leaves the table's -/
+def windowFor (cfg : TableCfg) (now : Int) (q : Query) : Window :=
   let srcAsOf := tableAsOf cfg now
   let srcUntil := tableUntil cfg now
-  let qa0 := if q.asOfOffset ≠ 0 then now + q.asOfOffset else q.asOf
-  let qu0 := if q.untilOffset ≠ 0 then now + q.untilOffset else q.hi
-  let qa := roundUp qa0 cfg.res
-  let qu := roundUp qu0 cfg.res
+  let qa := roundUp (if q.asOfOffset ≠ 0 then now + q.asOfOffset else q.asOf) cfg.res
+  let qu := roundUp (if q.untilOffset ≠ 0 then now + q.untilOffset else q.hi) cfg.res
   let asOfChanged := qa ≠ 0 && qa ≠ srcAsOf
-  let asOf := if asOfChanged then qa else srcAsOf
   let untilChanged := qu ≠ 0 && qu ≠ srcUntil
-  let hi := if untilChanged then qu else srcUntil
-  if asOf < srcAsOf then throw .asOfBeforeTable
+  { asOf := if asOfChanged then qa else srcAsOf, hi := if untilChanged then qu else srcUntil,
+    asOfChanged := asOfChanged, untilChanged := untilChanged, qAsOf := qa, qUntil := qu }
+
+/-- `resolutionFor` on a given window: (resolution, strideSlice, changed, truncated) or an error -/
+def resolutionFor (cfg : TableCfg) (q : Query) (w : Window) : Except QErr (Int × Int × Bool × Bool) :=
   let res0 := if q.resolution = 0 then cfg.res else q.resolution
-  if q.stride > 0 ∧ q.stride % cfg.res ≠ 0 then throw .strideNotMultiple
-  let (resolution, strideSlice) := if q.stride > 0 then (q.stride, res0) else (res0, (0 : Int))
-  let window := hi - asOf
-  let (resolution, truncated) := if resolution > window then (window, true) else (resolution, false)
-  let changed := resolution ≠ cfg.res
-  if changed ∧ resolution < cfg.res then throw .resolutionTooFine
-  if changed ∧ resolution % cfg.res ≠ 0 then throw .resolutionNotMultiple
-  let needs := asOfChanged || untilChanged || changed || !q.groupByAll || q.hasSpecificFields ||
-    q.hasHaving || decide (strideSlice > 0)
-  pure { asOf := asOf, hi := hi, asOfChanged := asOfChanged, untilChanged := untilChanged, qAsOf := qa, qUntil := qu,
-         resolution := resolution, strideSlice := strideSlice, resolutionChanged := changed,
-         resolutionTruncated := truncated, needsGroupBy := needs }
+  if q.stride > 0 ∧ q.stride % cfg.res ≠ 0 then .error .strideNotMultiple
+  else
+    let resolution := if q.stride > 0 then q.stride else res0
+    let strideSlice : Int := if q.stride > 0 then res0 else 0
+    let window := w.hi - w.asOf
+    let truncated := decide (resolution > window)
+    let resolution := if resolution > window then window else resolution
+    let changed := decide (resolution ≠ cfg.res)
+    if changed ∧ resolution < cfg.res then .error .resolutionTooFine
+    else if changed ∧ resolution % cfg.res ≠ 0 then .error .resolutionNotMultiple
+    else .ok (resolution, strideSlice, changed, truncated)
+
+/-- `planLocal`: window, the asOf check, resolution and the `needsGroupBy` decision -/
+def planLocal (cfg : TableCfg) (now : Int) (q : Query) : Except QErr Plan :=
+  let w := windowFor cfg now q
+  if w.asOf < tableAsOf cfg now then .error .asOfBeforeTable
+  else match resolutionFor cfg q w with
+    | .error e => .error e
+    | .ok (resolution, strideSlice, changed, truncated) =>
+      let needs := w.asOfChanged || w.untilChanged || changed || !q.groupByAll || q.hasSpecificFields ||
+        q.hasHaving || decide (strideSlice > 0)
+      .ok { asOf := w.asOf, hi := w.hi, asOfChanged := w.asOfChanged, untilChanged := w.untilChanged,
+            qAsOf := w.qAsOf, qUntil := w.qUntil, resolution := resolution, strideSlice := strideSlice,
+            resolutionChanged := changed, resolutionTruncated := truncated, needsGroupBy := needs }
 
 /-- `core.Group` on the rows of a table scan -/
 def groupRows (cfg : TableCfg) (now : Int) (q : Query) (pl : Plan) (inFields : List Field)
